@@ -752,7 +752,8 @@ def race_allowed(kind, cfg, emits, pre):
 
 
 def det_race(case):
-    """case = {"kind", "cfg", "emits": [["next", v] | ["error", tag] | ["completed"], ...], "pre": n, "K": k}.
+    """case = {"kind", "cfg", "emits": [["next", v] | ["error", tag] | ["completed"], ...], "pre": n, "K": k,
+    "first": "sub" | "emit"}.
     Thread A: subject.subscribe(recorder)  ||  thread B: the emits in order, on a subject created after patching."""
     from . import det
 
@@ -783,7 +784,9 @@ def det_race(case):
                 else:
                     subj.on_completed()
 
-        return [ta, tb], {"rec": rec, "pres": pres, "subj": subj}
+        # thread 0 runs first in the unpreempted schedule; with K preemptions the *other* thread is the one that can
+        # be interrupted at most K-1 times, so both orders are needed to cut into either call with K=1
+        return ([tb, ta] if case.get("first") == "emit" else [ta, tb]), {"rec": rec, "pres": pres, "subj": subj}
 
     def judge(res, ctx):
         if res.deadlock:
@@ -821,5 +824,6 @@ def det_race(case):
             seen.add(allowed.index(ctx["rec"].received))
     if incomplete:
         return SKIP("budget")
-    cl = ["det", f"K{K}", f"positions-observed:{len(seen)}/{len(allowed)}"] + [f"runs>={b}" for b in (10, 100, 1000) if runs >= b]
-    return OK(overlap > 0 and len(seen) >= 2, cl)
+    distinct = len({repr(a) for a in allowed})
+    cl = ["det", f"K{K}", f"outcomes-observed:{len(seen)}/{distinct}"] + [f"runs>={b}" for b in (10, 100, 1000) if runs >= b]
+    return OK(overlap > 0 and (len(seen) >= 2 or distinct == 1), cl)
